@@ -30,6 +30,37 @@ def is_posting_field(r, field):
     return r.kind == "param" and r.name.endswith(":posting") and field in r.fields
 
 
+def _ok_paths_checked(P, b0):
+    """path by path (on the picture with closures and `?` written out): every way to the Ok of the amount arm either
+    saw that the posting has no `= X`, or saw is_absolute_zero() of the assertion's difference hold"""
+    from analysis import desugar
+    try:
+        b = desugar.desugared(P, b0.key, expand_try=True) if not getattr(b0, "desugared", None) else b0
+        paths = mir.enumerate_paths(b, limit=60000)
+    except mir.TooManyPaths:
+        return False
+    n = 0
+    for p in paths:
+        sh = p.shape
+        if not (sh and sh[0] == "assign" and sh[2].get("k") == "aggregate" and sh[2].get("variant") == "Ok"):
+            continue
+        # amount arm: the posting's amount was seen to be Some
+        if not any(a.kind == "variant" and tuple(a.label) == ("Some",) and any(is_posting_field(r, "amount") for r in a.subject) for a in p.atoms):
+            continue
+        n += 1
+        ok = False
+        for a in p.atoms:
+            if a.kind == "variant" and tuple(a.label) == ("None",) and any(is_posting_field(r, "balance") for r in a.subject):
+                ok = True
+            if a.kind == "call" and a.subject[0] == AMT + "::is_absolute_zero" and tuple(a.label) == (True,):
+                ct = b.term(a.subject[2])
+                if q.all_roots(b, ct["args"][0], lambda r: r.kind == "call" and r.name == AMT + "::assert_balance"):
+                    ok = True
+        if not ok:
+            return False
+    return n > 0
+
+
 def assertion_order(P, chk):
     b = P.body(BK + "::process_posting")
     chk.analysed(b)
@@ -77,7 +108,10 @@ def assertion_order(P, chk):
                 ct = b.term(subject[2])
                 if q.all_roots(b, ct["args"][0], lambda r: r.kind == "call" and r.name == AMT + "::assert_balance"):
                     edges.append((sb, tb))
-        chk.require(q.must_pass_any_edge(b, bb, edges), R_ORD, "process_posting|Ok only without assertion or with zero diff", b.loc(bb),
+        okedge = q.must_pass_any_edge(b, bb, edges)
+        if not okedge:
+            okedge = _ok_paths_checked(P, b)
+        chk.require(okedge, R_ORD, "process_posting|Ok only without assertion or with zero diff", b.loc(bb),
                     "a posting with an amount is accepted without its assertion having been found exact",
                     "Ok under (no `=`) or is_absolute_zero(assert_balance(..))")
     chk.floor("Ok returns of the amount arm", n, 1)
